@@ -225,11 +225,19 @@ func (m *Machine) ProcessPacket(out, packet []byte) ([]byte, *Result, error) {
 	// noise returns (cs1, cs2) where cs1 is the initiator->responder cipher.
 	// For 3-message patterns where a responder finishes by reading the final
 	// message, this ordering would be wrong; revisit when XX/pqIX lands.
+	hBefore := append([]byte(nil), m.hs.ChannelBinding()...)
 	msg, eKey, dKey, err := m.hs.ReadMessage(nil, packet[header.Len:])
 	if err != nil {
 		// Noise ReadMessage failed. The noise library checkpoints and rolls back
-		// on failure, so the Machine is still alive. The caller can retry with
-		// a different packet.
+		// on an authentication failure, so the Machine is still alive and the
+		// caller can retry with a different packet. It does not roll back when
+		// the message runs short after the ephemeral key was consumed or when a
+		// DH operation fails; the transcript hash has then absorbed the bad
+		// message and the genuine one could never authenticate, so the Machine
+		// must report itself failed instead of staying silently wedged.
+		if !bytes.Equal(hBefore, m.hs.ChannelBinding()) {
+			m.failed = true
+		}
 		return nil, nil, fmt.Errorf("noise ReadMessage: %w", err)
 	}
 
